@@ -371,6 +371,38 @@ func checkC18(w *World, c *Check, tier string) {
 			}
 		})
 	}
+	// (reach) the routing layer never reports success without having handed the pair to a merge function: a return with
+	// a constant nil error in CopyItemProperties / the dispatcher must be dominated by a call of a merge function
+	for _, rf := range []*ssa.Function{copyItem, disp} {
+		if rf == nil {
+			continue
+		}
+		nret := 0
+		for _, rb := range returnBlocks(rf) {
+			ret := rb.Instrs[len(rb.Instrs)-1].(*ssa.Return)
+			if len(ret.Results) != 2 || !isNilConst(ret.Results[1]) {
+				continue
+			}
+			nret++
+			merged := false
+			for d := rb; d != nil; d = d.Idom() {
+				for _, in := range d.Instrs {
+					if call, ok := in.(*ssa.Call); ok {
+						if cal := call.Common().StaticCallee(); cal != nil && (merges[cal] || cal == disp) {
+							merged = true
+						}
+					}
+				}
+			}
+			key := fmt.Sprintf("%s:success-return#%d", funcName(rf), nret)
+			if merged {
+				c.ok("C18.reach", key, w.InstrPos(ret), "preceded by a merge call on every path")
+			} else {
+				c.bad("C18.reach", key, w.InstrPos(ret), fmt.Sprintf("%s can report success (nil error) at %s without any merge function having been called on that path: the update is silently dropped", funcName(rf), w.InstrPos(ret)))
+			}
+		}
+	}
+	c.ok("C18.reach", "routing-layer", w.FuncPos(copyItem), "every other result of the routing layer is the result of a merge/conversion call or a constructed error")
 	// unsupported type: the dispatcher's fall-through returns an error
 	if disp != nil {
 		avt := w.Named("ActivityVocabularyType")
